@@ -2,33 +2,34 @@
    Model: Model/ClientShutdown.v (the shutdown protocol between send task, read task, watcher and front end; a trace is
    ANY list of labels, the list is the adversarial scheduler + environment), frame arithmetic of Model/ClientMgr.v. *)
 From JV Require Import Base.Bytes Base.Dec Model.Wire Model.ClientMgr Model.ClientShutdown Proofs.ClientShutdownFacts.
+From JV Require Import Gen.ShutdownOrderGen.
 Local Open Scope N_scope.
 
 (* the front channel is never observably closed before the disconnect reason is recorded; the only shutdowns without
    a reason are those not caused by an error: the client was dropped, or read_task's clean-exit branch ran (dead code:
    no TransportReceiverT can make it run) *)
-Theorem C09_cause_before_close : forall tr, let s := run VNow init tr in
+Theorem C09_cause_before_close : forall tr, let s := run gen_variant init tr in
   front_closed s = true -> (exists c, reason s = Some c) \/ dropped s = true \/ h_recvend s = true.
 Proof. exact cause_before_close. Qed.
 Print Assumptions C09_cause_before_close.
 
 (* the recorded reason is the first result that entered close_tx *)
-Theorem C09_reason_is_first_report : forall tr c, let s := run VNow init tr in
+Theorem C09_reason_is_first_report : forall tr c, let s := run gen_variant init tr in
   reason s = Some c -> h_first s = Some (Some c).
 Proof. exact reason_is_first_report. Qed.
 Print Assumptions C09_reason_is_first_report.
 
-Theorem C09_no_placeholder : forall tr h, let s := run VNow init tr in
+Theorem C09_no_placeholder : forall tr h, let s := run gen_variant init tr in
   h_recvend s = false -> get_c s h <> Some (CDone OPlaceholder).
 Proof. exact no_placeholder. Qed.
 Print Assumptions C09_no_placeholder.
 
-Theorem C09_observed_cause_is_reason : forall tr h c, let s := run VNow init tr in
+Theorem C09_observed_cause_is_reason : forall tr h c, let s := run gen_variant init tr in
   get_c s h = Some (CDone (OCause c)) -> reason s = Some c /\ h_first s = Some (Some c).
 Proof. exact observed_cause_is_reason. Qed.
 Print Assumptions C09_observed_cause_is_reason.
 
-Theorem C09_all_pending_fail_with_cause : forall tr, let s := run VNow init tr in
+Theorem C09_all_pending_fail_with_cause : forall tr, let s := run gen_variant init tr in
   sp s = SExited -> rp s = RExited -> dropped s = false -> h_recvend s = false ->
   exists c, reason s = Some c /\ h_first s = Some (Some c) /\ is_connected s = false /\
     forall h,
@@ -37,9 +38,9 @@ Theorem C09_all_pending_fail_with_cause : forall tr, let s := run VNow init tr i
       | Some (CDone (OCause c')) => c' = c
       | Some (CDone OPlaceholder) => False
       | Some CGone => False
-      | Some _ => get_c (run VNow s [LCallerDropped h; LReadErr h]) h = Some (CDone (OCause c))
-      | None => get_c (run VNow s [LNewCall h; LReadErr h]) h = Some (CDone (OCause c)) /\
-                get_c (run VNow s [LOnDisc h; LReadErr h]) h = Some (CDone (OCause c))
+      | Some _ => get_c (run gen_variant s [LCallerDropped h; LReadErr h]) h = Some (CDone (OCause c))
+      | None => get_c (run gen_variant s [LNewCall h; LReadErr h]) h = Some (CDone (OCause c)) /\
+                get_c (run gen_variant s [LOnDisc h; LReadErr h]) h = Some (CDone (OCause c))
       end.
 Proof. exact all_pending_fail_with_cause. Qed.
 Print Assumptions C09_all_pending_fail_with_cause.
@@ -48,14 +49,14 @@ Print Assumptions C09_all_pending_fail_with_cause.
    increases it, some protocol step is enabled while mu > 0, and mu = 0 is the all-exited state.  The completion of
    the transport's close() is one of the protocol steps (assumption: close() terminates) -- only the END of the send task
    depends on it, what callers observe does not (C09_pending_fail_without_transport_close). *)
-Theorem C09_progress : forall tr, let s := run VNow init tr in
+Theorem C09_progress : forall tr, let s := run gen_variant init tr in
   started s = true ->
   (mu s <= 11)%nat /\
-  (forall l, (mu (step VNow s l) <= mu s)%nat) /\
-  (forall l, is_proto l = true -> enabled VNow s l = true -> (mu (step VNow s l) < mu s)%nat) /\
+  (forall l, (mu (step gen_variant s l) <= mu s)%nat) /\
+  (forall l, is_proto l = true -> enabled gen_variant s l = true -> (mu (step gen_variant s l) < mu s)%nat) /\
   (mu s = 0%nat <-> all_exited s = true) /\
-  ((mu s > 0)%nat -> exists l, is_proto l = true /\ enabled VNow s l = true) /\
-  all_exited (drive VNow false (mu s) s) = true.
+  ((mu s > 0)%nat -> exists l, is_proto l = true /\ enabled gen_variant s l = true) /\
+  all_exited (drive gen_variant false (mu s) s) = true.
 Proof. exact progress. Qed.
 Print Assumptions C09_progress.
 
@@ -63,12 +64,12 @@ Print Assumptions C09_progress.
    recorded, the front channel closed and the read task gone, every caller that is queued, registered in the manager
    or inside read_error completes with that cause by its own two steps after ANY continuation that does not drop the
    client -- in particular continuations in which the transport's close() never completes *)
-Theorem C09_pending_fail_without_transport_close : forall tr h c, let s := run VNow init tr in
+Theorem C09_pending_fail_without_transport_close : forall tr h c, let s := run gen_variant init tr in
   reason s = Some c -> front_closed s = true -> rp s = RExited ->
   (get_c s h = Some CQueued \/ get_c s h = Some CInMgr \/ get_c s h = Some CReadErr) ->
   forall tr', ~ In LClientDrop tr' ->
-    let s' := run VNow s tr' in
-    get_c (run VNow s' [LCallerDropped h; LReadErr h]) h = Some (CDone (OCause c)).
+    let s' := run gen_variant s tr' in
+    get_c (run gen_variant s' [LCallerDropped h; LReadErr h]) h = Some (CDone (OCause c)).
 Proof. exact pending_fail_without_transport_close. Qed.
 Print Assumptions C09_pending_fail_without_transport_close.
 
@@ -87,6 +88,13 @@ Theorem C09_old_order_refuted_old :
     get_c s h = Some (CDone OPlaceholder) /\ h_recvend s = false /\ dropped s = false.
 Proof. exact old_order_refuted. Qed.
 Print Assumptions C09_old_order_refuted_old.
+
+(* the reordering "report, then drop the front receiver without awaiting close_tx.closed()" (variant VNoWait) *)
+Theorem C09_no_wait_order_refuted :
+  exists tr h, let s := run VNoWait init tr in
+    get_c s h = Some (CDone OPlaceholder) /\ h_recvend s = false /\ dropped s = false /\ reason s = None.
+Proof. exact no_wait_refuted. Qed.
+Print Assumptions C09_no_wait_order_refuted.
 
 (* what the dead clean-exit branch of read_task would do if a receiver could end its stream *)
 Theorem C09_no_placeholder_recv_end_refuted : exists tr h, get_c (run VNow init tr) h = Some (CDone OPlaceholder).
